@@ -324,7 +324,21 @@ def new_master(W, backend=None):
     if not first:
         VT.now = now          # a restarted master does not turn back time
     W.installed = True
-    m = master.Master(backend if backend is not None else W.backend, 'cell')
+    if getattr(W, 'events_dir', None):
+        # trace events are posted for real (files in a scratch directory)
+        import fsx
+        if not os.path.isdir(W.events_dir):
+            W.events_dir = fsx.fresh()
+        for sub in ('apps', 'servers'):
+            os.makedirs(os.path.join(W.events_dir, sub), exist_ok=True)
+        m = master.Master(backend if backend is not None else W.backend,
+                          'cell',
+                          app_events_dir=os.path.join(W.events_dir, 'apps'),
+                          server_events_dir=os.path.join(W.events_dir,
+                                                         'servers'))
+    else:
+        m = master.Master(backend if backend is not None else W.backend,
+                          'cell')
     return m
 
 
